@@ -347,6 +347,41 @@ def gen_project(rng, mode="plain", syntaxes=None, allow_mixed=True, max_files=4,
                 f["lines"].append({"segs": [filler(rng, "plain", False) + " ", ypat["prefix"], {"slot": ypat["region"], "pat": idx},
                                             ypat["suffix"]], "end": end})
                 clock_slots = True
+    # the same literal context in two files, around different patterns ("version = MAJOR.MINOR" in docs/conf.py,
+    # "version = {pep440_version}" in pyproject.toml): what one file's text is replaced with says nothing about the other's
+    plain_files = [x for x in files if not x.get("bare") and not x.get("glob_group")]
+    if len(plain_files) >= 2 and not legacy and rng.random() < 0.25:
+        fa, fb = rng.sample(plain_files, 2)
+        twin_of = {"{version}": "{pep440_version}" if pep_ok else None, "{pep440_version}": "{version}",
+                   "MM": "0M", "0M": "MM", "DD": "0D", "0D": "DD", "WW": "0W", "0W": "WW", "UU": "0U", "0U": "UU",
+                   "VV": "0V", "0V": "VV", "JJJ": "00J", "00J": "JJJ"}
+        cands = []
+        for raw in fa["patterns"]:
+            for ln in fa["lines"]:
+                segs = ln["segs"]
+                for i, sg in enumerate(segs):
+                    if isinstance(sg, str) or twin_of.get(sg["slot"]) is None or fa["patterns"][sg["pat"]] != raw:
+                        continue
+                    if sum(1 for x in segs if not isinstance(x, str) and x["pat"] == sg["pat"]) != 1:
+                        continue
+                    region = sg["slot"]
+                    if raw.count(region) == 1:
+                        cands.append((raw, region))
+        cands = sorted(set(cands))
+        if cands:
+            raw, region = rng.choice(cands)
+            pre, suf = raw.split(region)
+            region2 = twin_of[region]
+            raw2 = pre + region2 + suf
+            if raw2 not in fb["patterns"] and (not ini or configsyn.ini_expressible_pattern(raw2)):
+                idx = len(fb["patterns"])
+                fb["patterns"].append(raw2)
+                sep = {"lf": "\n", "crlf": "\r\n", "cr": "\r", "mixed": "\n"}[fb["regime"]]
+                end = fb["lines"][-1]["end"] if fb["lines"] else "\n"
+                if fb["lines"] and fb["lines"][-1]["end"] == "":
+                    fb["lines"][-1]["end"] = sep
+                fb["lines"].append({"segs": [unescape(pre), {"slot": region2, "pat": idx}, unescape(suf)], "end": end})
+                fb["twin_context"] = True
     # config entries: explicit path, a glob that matches exactly this file, or the patterns split over two entries
     entries = []
     if any(f.get("glob_group") for f in files):
